@@ -53,7 +53,20 @@ def sexpToSpec? : Nat → List Sexp → Option Spec
     | list (atom "attr" :: _) => pure (.attr (← sexpToSAttr? x) rest)
     | _ => none
 
-/-- `(var <name> <kind> <dtypeName> ((<fq> <extent>) ...))` | `(group <name> ((<dim> <size>) ...) (<kid> ...))` -/
+/-- a served attribute value: `(i <0|1 unsigned> <lg itemsize> <int>)`, `(f <4|8> x<text>)`, `(t x<text>)` -/
+def sexpToSrvVal? : Sexp → Option SrvVal
+  | list [atom "i", u, lg, i] => do
+    let lg ← asNat? lg
+    if h : lg < 4 then pure (.int ((← asNat? u) == 1) ⟨lg, h⟩ (← asInt? i)) else none
+  | list [atom "f", w, t] => do pure (.float ((← asNat? w) == 8) (← asStr? t))
+  | list [atom "t", t] => do pure (.text (← asStr? t))
+  | _ => none
+
+def sexpToSrvAttr? : Sexp → Option SrvAttr
+  | list [n, list vs] => do pure ⟨← asStr? n, ← vs.mapM sexpToSrvVal?⟩
+  | _ => none
+
+/-- `(var <name> <kind> <dtypeName> ((<fq> <extent>) ...) [(<attr> ...) (<map> ...)])` | `(group <name> ((<dim> <size>) ...) (<kid> ...))` -/
 def sexpToSrv? : Nat → List Sexp → Option SrvTree
   | 0, _ => none
   | _ + 1, [] => some .nil
@@ -64,7 +77,12 @@ def sexpToSrv? : Nat → List Sexp → Option SrvTree
       let dims ← dims.mapM fun d => match d with
         | list [fq, sz] => do pure (← asStr? fq, ← asInt? sz)
         | _ => none
-      pure (.var ⟨← asStr? n, k.toList.headD ' ', ← asStr? dt, dims⟩ rest)
+      pure (.var ⟨← asStr? n, k.toList.headD ' ', ← asStr? dt, dims, [], []⟩ rest)
+    | list [atom "var", n, atom k, dt, list dims, list attrs, list maps] =>
+      let dims ← dims.mapM fun d => match d with
+        | list [fq, sz] => do pure (← asStr? fq, ← asInt? sz)
+        | _ => none
+      pure (.var ⟨← asStr? n, k.toList.headD ' ', ← asStr? dt, dims, ← attrs.mapM sexpToSrvAttr?, ← maps.mapM asStr?⟩ rest)
     | list [atom "group", n, list dims, list kids] =>
       let dims ← dims.mapM fun d => match d with
         | list [dn, sz] => do pure (← asStr? dn, ← asNat? sz)
